@@ -76,6 +76,10 @@ class Agg
     std::vector<uint8_t> fail_bytes;
     std::chrono::steady_clock::time_point t0
         = std::chrono::steady_clock::now();
+    std::chrono::steady_clock::time_point t_fail = t0;
+    long shrink_attempts = 0;
+    long max_shrink_attempts = 4000;
+    double max_shrink_seconds = 90;
 
     // Run one case.  Returns the verdict; `is_known` set if the violation
     // carries a finding key.
@@ -88,13 +92,27 @@ class Agg
     {
         Choices c(data, size);
         CaseLog log;
-        Verdict v = run_case(c, log);
+        Verdict v = Verdict::pass;
+        if (!(failed && shrink_attempts >= max_shrink_attempts))
+            v = run_case(c, log);
         bool known_hit = (v == Verdict::violation && !log.finding.empty());
         if (is_known)
             *is_known = known_hit;
         if (failed)
         {
-            // shrinking phase: only track the latest failing candidate
+            // shrinking phase: bounded (count first, wall clock as backstop)
+            ++shrink_attempts;
+            if (shrink_attempts > max_shrink_attempts
+                || std::chrono::duration<double>(
+                       std::chrono::steady_clock::now() - t_fail)
+                           .count()
+                       > max_shrink_seconds)
+            {
+                if (is_known)
+                    *is_known = false;
+                return Verdict::pass;
+            }
+            // only track the latest failing candidate
             if (v == Verdict::violation && !known_hit)
                 this->record_failure(data, size, c, log);
             return v;
@@ -124,6 +142,7 @@ class Agg
         if (v == Verdict::violation)
         {
             failed = true;
+            t_fail = std::chrono::steady_clock::now();
             this->record_failure(data, size, c, log);
             return v;
         }
